@@ -332,8 +332,10 @@ class PerplexityE(Entry):
     def cfg_val(self, cfg):
         return cfg["ignore_index"]
 
+    MAX_TOKENS = 1500     # _perplexity_update materialises probs[:, target] (N x N) before .diagonal(): quadratic memory
+
     def gen_batch(self, rng, cfg, n):
-        n = max(1, n)
+        n = min(max(1, n), self.MAX_TOKENS)
         v, ig = cfg["_v"], cfg["ignore_index"]
         rows = [grid(rng, v, 4, -8, 8) for _ in range(n)]
         p = rng.choice([0, 0.3, 0.8])
